@@ -26,17 +26,56 @@ def jitter_table(n):
     return np.sort(t) / (n - 1.0)
 
 
-def qgrid(kind, n, q0):
-    """n points starting at q0 and ending at SPAN*q0"""
+def qgrid(kind, n, q0, span=SPAN):
+    """n ascending points starting at q0 and ending at span*q0"""
     if n == 1:
         return np.array([q0], dtype=float)
     if kind == "linear":
-        return np.linspace(q0, SPAN * q0, n)
+        return np.linspace(q0, span * q0, n)
     if kind == "log":
-        return q0 * SPAN ** (np.arange(n) / (n - 1.0))
+        return q0 * span ** (np.arange(n) / (n - 1.0))
     if kind == "irregular":
-        return q0 * SPAN ** jitter_table(n)
+        return q0 * span ** jitter_table(n)
     raise ValueError(kind)
+
+
+# ----------------------------------------------------------------------------------------------
+# storage order of the data points: a fixed, finite menu of permutations (nothing random)
+
+ORDERS = ["ascending", "descending", "rotated", "interleaved"]
+ORDER_SPAN = 200.0        # max(q)/min(q) of the data sets whose storage order is varied
+
+
+def order_perm(name, n):
+    """
+    index array p: the stored data are ascending[p] (per-point widths / wavelengths are permuted with them).
+      descending  - reversed
+      rotated     - cyclic shift by n//3: the set starts in its middle, the smallest value is stored inside; the
+                    first two stored values are still increasing; not an involution unless n = 2k
+      interleaved - two banks, even-indexed points first, then the odd-indexed ones; not an involution for n >= 4
+    """
+    i = np.arange(n)
+    if name == "ascending":
+        return i
+    if name == "descending":
+        return i[::-1].copy()
+    if name == "rotated":
+        k = max(1, n // 3)
+        return np.concatenate([i[k:], i[:k]])
+    if name == "interleaved":
+        return np.concatenate([i[0::2], i[1::2]])
+    raise ValueError(name)
+
+
+def distinct_orders(n):
+    """the non-ascending orders of the menu that are distinct permutations for n points"""
+    out, seen = [], {tuple(range(n))}
+    for name in ORDERS[1:]:
+        t = tuple(int(v) for v in order_perm(name, n))
+        if t not in seen:
+            seen.add(t)
+            out.append(name)
+    return out
 
 
 # ----------------------------------------------------------------------------------------------
